@@ -514,7 +514,9 @@ class Verifier(Engine):
                                                           self.seq_idx(sq, j).t != self.seq_idx(sq, j2).t),
                                       patterns=[z3.MultiPattern(self.seq_idx(sq, j).t, self.seq_idx(sq, j2).t)]))
             x = z3.Const(f"x{k}", self.sort(v.ty.elem))
-            self.assume(st, z3.ForAll([x], z3.Implies(mem(v.t, x), self.pre.seqf(sq.ty, "count")(sq.t, x) >= 1), patterns=[mem(v.t, x)]))
+            pos = z3.Function(f"enumpos{k}", self.sort(v.ty.elem), z3.IntSort())
+            self.assume(st, z3.ForAll([x], z3.Implies(mem(v.t, x), z3.And(self.pre.seqf(sq.ty, "count")(sq.t, x) >= 1, 0 <= pos(x), pos(x) < self.seq_len(sq),
+                                                                           self.seq_idx(sq, pos(x)).t == x)), patterns=[mem(v.t, x)]))
             return sq, "plain"
         return self.as_seq(v, st), "plain"
 
